@@ -535,6 +535,9 @@ FINITE_ITER_HINTS = ('std::ops::Range', 'std::slice::Iter', 'std::slice::IterMut
                      'std::iter::Zip', 'std::iter::Take', 'std::iter::Rev', 'std::iter::Copied', 'std::iter::Cloned')
 
 
+CONSUMING_ADAPTORS = ('next', 'find', 'find_map', 'position', 'any', 'all', 'nth', 'last', 'count', 'fold', 'for_each')
+
+
 def _loop_driver(ctx, b, h, body):
     """Classify what bounds the loop. Returns (kind, detail)."""
     prog = ctx.prog
@@ -641,7 +644,8 @@ def _finite_wrapper(ctx, nid, _stack=()):
     for bi, t in b.calls():
         targets, ext, _ = ctx.prog.call_targets(b, t)
         name = ext or ''
-        if name.endswith('::next') and t['args']:
+        # `next`, or a consuming adaptor that pulls items until a predicate holds / the iterator is exhausted
+        if (name.endswith('::next') or (name.startswith('std::iter::Iterator::') and name.split('::')[-1] in CONSUMING_ADAPTORS)) and t['args']:
             al = op_local(t['args'][0])
             heads = [x.replace('&mut ', '').replace('&', '').strip() for x in (t.get('self_ty', {}).get('s', ''), b.local_ty(al)['s'] if al is not None else '')]
             if any(h.startswith(FINITE_ITER_HINTS) for h in heads if h):
